@@ -54,13 +54,16 @@ def strategy_(draw, tier):
         case["kw"]["optimization_options"] = opts
     case["meta"]["lb_mode"] = mode
     kw = case["kw"]
-    if kw.get("subpath_constraints") and kw.get("flow_attr_origin") != "node" and draw(st.integers(0, 3)) == 0:
-        # coverage measured in edge length instead of edge count
-        lens = draw(st.lists(st.integers(1, 4), min_size=len(case["graph"]["edges"]), max_size=len(case["graph"]["edges"])))
+    how = draw(st.sampled_from([1, 0, 2, 2, 1, 2]))
+    if kw.get("subpath_constraints") and kw.get("flow_attr_origin") != "node" and "length_attr" not in kw and how <= 1:
+        lens = draw(st.lists(st.sampled_from([3, 1, 2, 4]), min_size=len(case["graph"]["edges"]), max_size=len(case["graph"]["edges"])))
         for e, l in zip(case["graph"]["edges"], lens):
             e[2]["len"] = l
         kw["length_attr"] = "len"
-        kw["subpath_constraints_coverage_length"] = kw.pop("subpath_constraints_coverage", 1.0)
+        if how == 0:
+            # coverage measured in edge length instead of edge count
+            kw["subpath_constraints_coverage_length"] = kw.pop("subpath_constraints_coverage", 1.0)
+        # how == 1: a length attribute is named but coverage stays count-based (the lengths must not matter)
     return case
 
 
@@ -136,6 +139,8 @@ def run_case(case, tier="quick"):
     lengths = spec.lengths
     if spec.by_length:
         labels.add("length_coverage")
+    elif constraints and case["kw"].get("length_attr"):
+        labels.add("length_attr_but_count_coverage")
     if constraints:
         labels.add("constraints")
     if ignored:
